@@ -10,10 +10,18 @@
 //	item 1 (recManual) forks by constructing the clones itself; requires what item 0 provides
 //
 // Merge gives every participant the union of the participants' sets; "last" stays the instance's own.
+//
+// Every option of Pipeline.Initialize that the planner / interpreter reads varies: the hibernation distance (dist),
+// Pipeline.DumpPlan and Pipeline.PrintActions (opts bit 0 / bit 1; what they print goes through the package sink
+// of internal/core, which is swapped for a no-op through the verif hook verifapi/c14.SetPlanPrinter - nothing
+// reaches stderr or the trace), and the committer timestamps of the commits (tmode, planlib.TimesFor: growing,
+// equal, falling, random, skewed).  Kind wide: forks of more than eight branches and octopus merges of more than
+// eight parents.
 package main
 
 import (
 	"fmt"
+	"math/rand"
 	"runtime/debug"
 	"sort"
 	"sync"
@@ -23,13 +31,24 @@ import (
 	"gopkg.in/src-d/go-git.v4/plumbing"
 	"gopkg.in/src-d/go-git.v4/plumbing/object"
 	hercules "gopkg.in/src-d/hercules.v10"
+	c14 "gopkg.in/src-d/hercules.v10/verifapi/c14"
 	. "verifharness/lib"
 	pl "verifharness/planlib"
 	"verifharness/synth"
 )
 
-// the fact key of --hibernation-distance (core.ConfigPipelineHibernationDistance; as in harness/cmd/c09)
-const factHibernationDistance = "Pipeline.HibernationDistance"
+// the fact keys of --hibernation-distance, --dump-plan and --print-actions (core.ConfigPipelineHibernationDistance,
+// ConfigPipelineDumpPlan, ConfigPipelinePrintActions in internal/core/pipeline.go; not re-exported by the root package)
+const (
+	factHibernationDistance = "Pipeline.HibernationDistance"
+	factDumpPlan            = "Pipeline.DumpPlan"
+	factPrintActions        = "Pipeline.PrintActions"
+)
+
+const (
+	optDumpPlan     = 1
+	optPrintActions = 2
+)
 
 const entA = "c02run.a"
 
@@ -160,6 +179,123 @@ func (it *recManual) Merge(branches []hercules.PipelineItem) {
 	mergeStates(all)
 }
 
+// recLight is the recording item of the LARGE runs (kinds scale-*): it keeps no set of commits (copying one at
+// every fork is quadratic) but gives every instance an id and logs the calls: (root id) (fork src (ids)) (con id c)
+// (merge id (ids)).  The driver reads the log as a plan over instance ids and judges it with the fast validator.
+type lightShared struct {
+	id     map[plumbing.Hash]int
+	events []Sx
+	next   int
+}
+
+type recLight struct {
+	sh *lightShared
+	id int
+}
+
+func (it *recLight) Name() string                                             { return "C02RunLight" }
+func (it *recLight) Provides() []string                                       { return []string{} }
+func (it *recLight) Requires() []string                                       { return []string{} }
+func (it *recLight) ListConfigurationOptions() []hercules.ConfigurationOption { return nil }
+func (it *recLight) Configure(map[string]interface{}) error                   { return nil }
+func (it *recLight) Initialize(*git.Repository) error                         { return nil }
+func (it *recLight) Consume(deps map[string]interface{}) (map[string]interface{}, error) {
+	c := -2
+	if cm, ok := deps[hercules.DependencyCommit].(*object.Commit); ok {
+		if x, ok := it.sh.id[cm.Hash]; ok {
+			c = x
+		}
+	}
+	it.sh.events = append(it.sh.events, T("con", I(it.id), I(c)))
+	return map[string]interface{}{}, nil
+}
+func (it *recLight) Fork(n int) []hercules.PipelineItem {
+	clones := make([]hercules.PipelineItem, n)
+	ids := make([]int, n)
+	for i := range clones {
+		ids[i] = it.sh.next
+		it.sh.next++
+		clones[i] = &recLight{sh: it.sh, id: ids[i]}
+	}
+	it.sh.events = append(it.sh.events, T("fork", I(it.id), Ints(ids)))
+	return clones
+}
+func (it *recLight) Merge(branches []hercules.PipelineItem) {
+	ids := make([]int, len(branches))
+	for i, b := range branches {
+		ids[i] = b.(*recLight).id
+	}
+	it.sh.events = append(it.sh.events, T("merge", I(it.id), Ints(ids)))
+}
+
+type scaleIn struct {
+	shape              string
+	size, hmode, tmode int
+	gseed              int64
+	dist, opts         int
+}
+
+// runScale executes one large history (planlib.ScaleGraph; hmode only chooses the slice order here, the hashes
+// are real) and returns the case line.
+func runScale(sp scaleIn) []Sx {
+	g := pl.ScaleGraph(sp.shape, sp.size, sp.hmode, sp.tmode, sp.gseed)
+	specs := make([]synth.CommitSpec, g.N)
+	files := []synth.FileSpec{{Path: "f", Data: []byte("x\n")}}
+	for i := range specs {
+		t := int64(i) * 60
+		if len(g.Times) == g.N {
+			t = int64(g.Times[i])
+		}
+		specs[i] = synth.CommitSpec{AuthorName: "u", AuthorEmail: "u@x", AuthorWhen: time.Unix(pl.TimeBase+t, 0),
+			Message: fmt.Sprintf("g%d c%d", sp.gseed, i), Files: files}
+	}
+	for _, e := range g.Edges {
+		specs[e[0]].Parents = append(specs[e[0]].Parents, e[1])
+	}
+	repo, byNum := synth.BuildRepo(specs)
+	sh := &lightShared{id: make(map[plumbing.Hash]int, g.N), next: 1}
+	for i, c := range byNum {
+		sh.id[c.Hash] = i
+	}
+	commits := make([]*object.Commit, g.N)
+	for k, i := range g.Order {
+		commits[k] = byNum[i]
+	}
+	pipeline := hercules.NewPipeline(repo)
+	pipeline.AddItem(&recLight{sh: sh, id: 0})
+	sh.events = append(sh.events, T("root", I(0)))
+	facts := map[string]interface{}{
+		hercules.ConfigPipelineCommits: commits,
+		factHibernationDistance:        sp.dist,
+		hercules.ConfigLogger:          nopLogger{},
+	}
+	if sp.opts&optDumpPlan != 0 {
+		facts[factDumpPlan] = true
+	}
+	if sp.opts&optPrintActions != 0 {
+		facts[factPrintActions] = true
+	}
+	status := "ok"
+	var err error
+	_, panicked := Catch(func() {
+		if err = pipeline.Initialize(facts); err != nil {
+			status = "initfail"
+			return
+		}
+		debug.SetGCPercent(400)
+		_, err = pipeline.Run(commits)
+	})
+	if panicked {
+		status = "panic"
+	} else if err != nil && status == "ok" {
+		status = "err"
+	}
+	fs := []Sx{T("kind", A("scale-"+sp.shape)), T("nt", B(true))}
+	fs = append(fs, pl.ScaleFields(sp.shape, sp.size, sp.hmode, sp.tmode, sp.gseed, g)...)
+	fs = append(fs, T("dist", I(sp.dist)), T("opts", I(sp.opts)))
+	return append(fs, T("obs", T("run", A(status)), T("log", sh.events...)))
+}
+
 type nopLogger struct{}
 
 func (nopLogger) Info(...interface{})              {}
@@ -175,10 +311,12 @@ func (nopLogger) Criticalf(string, ...interface{}) {}
 // one case
 
 type caseIn struct {
-	Kind string
-	G    pl.Graph // Ranks are not an input here: the hashes are real, their order is observed
-	Dist int
-	Salt int
+	Kind  string
+	G     pl.Graph // Ranks are not an input here: the hashes are real, their order is observed
+	Dist  int
+	Salt  int
+	Opts  int // optDumpPlan | optPrintActions
+	TMode int // committer / author timestamps: 0 = growing with the number (one minute apart), else planlib.TimesFor(TMode)
 }
 
 // build writes the history into a fresh in-memory repository: the commits outside the analysed set
@@ -193,13 +331,19 @@ func build(in caseIn) (*git.Repository, []*object.Commit) {
 	}
 	specs := make([]synth.CommitSpec, 0, next+g.N)
 	files := []synth.FileSpec{{Path: "f", Data: []byte("x\n")}}
+	when := func(i int) time.Time { return time.Unix(synth.BaseTime+1000+int64(i)*60, 0) }
+	if in.TMode > 0 {
+		// deterministic in (TMode, Salt, N); mode 0 of TimesFor (no timestamp) does not exist for real commits
+		ts := pl.TimesFor(in.TMode, g.N, rand.New(rand.NewSource(int64(in.Salt)*31+int64(g.N))))
+		when = func(i int) time.Time { return time.Unix(pl.TimeBase+int64(ts[i]), 0) }
+	}
 	for k := 0; k < next; k++ {
 		specs = append(specs, synth.CommitSpec{AuthorName: "u", AuthorEmail: "u@x",
 			AuthorWhen: time.Unix(synth.BaseTime+int64(k), 0), Message: fmt.Sprintf("s%d ext%d", in.Salt, k), Files: files})
 	}
 	for i := 0; i < g.N; i++ {
 		specs = append(specs, synth.CommitSpec{AuthorName: "u", AuthorEmail: "u@x",
-			AuthorWhen: time.Unix(synth.BaseTime+1000+int64(i)*60, 0), Message: fmt.Sprintf("s%d c%d", in.Salt, i), Files: files})
+			AuthorWhen: when(i), Message: fmt.Sprintf("s%d c%d", in.Salt, i), Files: files})
 	}
 	for _, e := range g.Edges {
 		p := next + e[1]
@@ -239,6 +383,12 @@ func runCase(in caseIn) []Sx {
 		factHibernationDistance:        in.Dist,
 		hercules.ConfigLogger:          nopLogger{},
 	}
+	if in.Opts&optDumpPlan != 0 {
+		facts[factDumpPlan] = true
+	}
+	if in.Opts&optPrintActions != 0 {
+		facts[factPrintActions] = true
+	}
 	status := "ok"
 	var err error
 	_, panicked := Catch(func() {
@@ -251,7 +401,8 @@ func runCase(in caseIn) []Sx {
 			// for what is observed here and only slows the harness down
 			debug.SetGCPercent(400)
 		}
-		if pipeline.HibernationDistance != in.Dist {
+		if pipeline.HibernationDistance != in.Dist || pipeline.DumpPlan != (in.Opts&optDumpPlan != 0) ||
+			pipeline.PrintActions != (in.Opts&optPrintActions != 0) {
 			status = "nodist"
 			return
 		}
@@ -263,7 +414,7 @@ func runCase(in caseIn) []Sx {
 		status = "err"
 	}
 	fs := []Sx{T("kind", A(in.Kind)), T("nt", B(g.NonTrivial())), T("n", I(g.N)), T("dist", I(in.Dist)), T("salt", I(in.Salt)),
-		T("order", Ints(g.Order).List...)}
+		T("opts", I(in.Opts)), T("tmode", I(in.TMode)), T("order", Ints(g.Order).List...)}
 	es := make([]Sx, len(g.Edges))
 	for i, e := range g.Edges {
 		es[i] = L(I(e[0]), I(e[1]))
@@ -444,15 +595,36 @@ func main() {
 		workers = 10
 	}
 	debug.SetGCPercent(400)
+	// what DumpPlan / PrintActions print is discarded (the sink is a package variable: set once, before any run)
+	c14.SetPlanPrinter(func(...interface{}) {})
 	if c.Replay != "" {
 		var ins []caseIn
 		for _, cs := range c.ReplayCases() {
+			if shape, size, hmode, tmode, gseed, ok := pl.ParseScale(cs); ok {
+				sp := scaleIn{shape: shape, size: size, hmode: hmode, tmode: tmode, gseed: gseed}
+				if f, ok := cs.Field("dist"); ok {
+					sp.dist = f.Args()[0].Int()
+				}
+				if f, ok := cs.Field("opts"); ok {
+					sp.opts = f.Args()[0].Int()
+				}
+				runAll(c, ins, 1)
+				ins = ins[:0]
+				c.Emit(runScale(sp)...)
+				continue
+			}
 			in := caseIn{Kind: "replay", G: pl.ParseGraph(cs)}
 			if f, ok := cs.Field("dist"); ok {
 				in.Dist = f.Args()[0].Int()
 			}
 			if f, ok := cs.Field("salt"); ok {
 				in.Salt = f.Args()[0].Int()
+			}
+			if f, ok := cs.Field("opts"); ok {
+				in.Opts = f.Args()[0].Int()
+			}
+			if f, ok := cs.Field("tmode"); ok {
+				in.TMode = f.Args()[0].Int()
 			}
 			if in.G.N >= 1 {
 				ins = append(ins, in)
@@ -466,12 +638,30 @@ func main() {
 		runAll(c, ins, workers)
 		ins = ins[:0]
 	}
+	// the plan dump / the action trace on in about a third of the runs each; growing timestamps in half of the runs
+	opts := func() int {
+		o := 0
+		if c.Rng.Intn(3) == 0 {
+			o |= optDumpPlan
+		}
+		if c.Rng.Intn(3) == 0 {
+			o |= optPrintActions
+		}
+		return o
+	}
+	tmode := func() int {
+		if c.Rng.Intn(2) == 0 {
+			return 0
+		}
+		return 1 + c.Rng.Intn(pl.NumTimeModes-1)
+	}
 	// exhaustive: every DAG on <= 5 commits x hibernation distance 0..3 (hash order: whatever the salt gives)
 	for n := 1; n <= 5; n++ {
 		for m := 0; m < pl.NumMasks(n); m++ {
 			for d := 0; d <= 3; d++ {
 				g := pl.FromParents(pl.DagFromMask(n, m), pl.Identity(n))
-				ins = append(ins, caseIn{Kind: fmt.Sprintf("ex%d", n), G: g, Dist: d, Salt: c.Rng.Intn(1 << 20)})
+				ins = append(ins, caseIn{Kind: fmt.Sprintf("ex%d", n), G: g, Dist: d, Salt: c.Rng.Intn(1 << 20),
+					Opts: (m + d) % 4, TMode: (m/4 + d) % pl.NumTimeModes})
 			}
 		}
 	}
@@ -480,7 +670,7 @@ func main() {
 	if c.Tier == "thorough" {
 		for m := 0; m < pl.NumMasks(6); m++ {
 			g := pl.FromParents(pl.DagFromMask(6, m), pl.Identity(6))
-			ins = append(ins, caseIn{Kind: "ex6", G: g, Dist: c.Rng.Intn(4), Salt: c.Rng.Intn(1 << 20)})
+			ins = append(ins, caseIn{Kind: "ex6", G: g, Dist: c.Rng.Intn(4), Salt: c.Rng.Intn(1 << 20), Opts: opts(), TMode: tmode()})
 			if len(ins) >= 4096 {
 				flush()
 			}
@@ -494,7 +684,7 @@ func main() {
 			k = 5 + c.Rng.Intn(2)
 		}
 		g := rootsGraph(c.Rng, k)
-		ins = append(ins, caseIn{Kind: fmt.Sprintf("roots%d", rootsIn(g)), G: g, Dist: c.Rng.Intn(4), Salt: c.Rng.Intn(1 << 20)})
+		ins = append(ins, caseIn{Kind: fmt.Sprintf("roots%d", rootsIn(g)), G: g, Dist: c.Rng.Intn(4), Salt: c.Rng.Intn(1 << 20), Opts: opts(), TMode: tmode()})
 		if len(ins) >= 4096 {
 			flush()
 		}
@@ -504,22 +694,61 @@ func main() {
 	// edges, disconnected components, parents outside the set)
 	for i := c.Count(10000, 160000); i > 0; i-- {
 		g := pl.RandomGraph(c.Rng, 14)
-		ins = append(ins, caseIn{Kind: "rnd", G: g, Dist: c.Rng.Intn(4), Salt: c.Rng.Intn(1 << 20)})
+		ins = append(ins, caseIn{Kind: "rnd", G: g, Dist: c.Rng.Intn(4), Salt: c.Rng.Intn(1 << 20), Opts: opts(), TMode: tmode()})
 		if len(ins) >= 4096 {
 			flush()
 		}
 	}
 	for i := c.Count(500, 8000); i > 0; i-- {
 		g := pl.RandomGraph(c.Rng, 40)
-		ins = append(ins, caseIn{Kind: "rndbig", G: g, Dist: c.Rng.Intn(4), Salt: c.Rng.Intn(1 << 20)})
+		ins = append(ins, caseIn{Kind: "rndbig", G: g, Dist: c.Rng.Intn(4), Salt: c.Rng.Intn(1 << 20), Opts: opts(), TMode: tmode()})
 	}
 	flush()
+	// forks of more than eight branches and octopus merges of more than eight parents (planlib.WideGraph), with the
+	// plan dump / action trace on in most of them
+	for i := c.Count(300, 12000); i > 0; i-- {
+		ps := pl.WideGraph(c.Rng, 14)
+		g := pl.FromParents(ps, pl.Identity(len(ps)))
+		g.Order = randOrder(c.Rng, g.N)
+		o := opts()
+		if c.Rng.Intn(2) == 0 {
+			o = 1 + c.Rng.Intn(3)
+		}
+		ins = append(ins, caseIn{Kind: "wide", G: g, Dist: c.Rng.Intn(4), Salt: c.Rng.Intn(1 << 20), Opts: o, TMode: tmode()})
+		if len(ins) >= 4096 {
+			flush()
+		}
+	}
+	flush()
+	// large histories (10^3 commits / branches in every shape; thorough: 10^4, and more than 2^16 branch indexes),
+	// one after the other: each needs up to a few hundred MB
+	if c.Tier != "search" {
+		mk := func(shape string, size int) {
+			tm := c.Rng.Intn(pl.NumTimeModes)
+			if tm == 0 {
+				tm = 2
+			}
+			c.Emit(runScale(scaleIn{shape, size, c.Rng.Intn(3), tm, int64(c.Rng.Intn(1 << 30)), c.Rng.Intn(3), c.Rng.Intn(4)})...)
+		}
+		for _, sh := range pl.ScaleShapes {
+			mk(sh, 1000+c.Rng.Intn(25))
+		}
+		if c.Thorough() {
+			for _, sh := range []string{"comb", "diamonds", "roots", "ladder", "ffchain", "starmerge", "star"} {
+				mk(sh, 10000+c.Rng.Intn(300))
+			}
+			mk("bush", 3000)
+			mk("star", 65536+1+c.Rng.Intn(100))
+			mk("comb", 65536+1+c.Rng.Intn(3000))
+			mk("diamonds", 65536+1+c.Rng.Intn(1000))
+		}
+	}
 	// shapes of synth.GenHist (one root, merges among the last four commits, optionally closed to one head)
 	for i := c.Count(3000, 40000); i > 0; i-- {
 		h := synth.GenHist(c.Rng, synth.GenOpts{MaxCommits: 4 + c.Rng.Intn(14), SingleHead: c.Rng.Intn(2) == 0, SameTick: true, Paths: 1, Authors: 1})
 		g := pl.FromParents(h.Parents, pl.Identity(h.N))
 		g.Order = randOrder(c.Rng, h.N)
-		ins = append(ins, caseIn{Kind: "genhist", G: g, Dist: c.Rng.Intn(4), Salt: c.Rng.Intn(1 << 20)})
+		ins = append(ins, caseIn{Kind: "genhist", G: g, Dist: c.Rng.Intn(4), Salt: c.Rng.Intn(1 << 20), Opts: opts(), TMode: tmode()})
 		if len(ins) >= 4096 {
 			flush()
 		}
